@@ -53,7 +53,11 @@ RULE = ("a case = service kind (ephemeral v2/v3, basic-auth ephemeral with Tor-m
 ASSUMPTIONS = [
     "per directory and service: UPLOAD precedes its UPLOADED/FAILED; at most one attempt per directory per history",
     "Tor emits HS_DESC only while the controller is subscribed (events after the wait unsubscribed are not sent)",
-    "own events that precede the creating reply (Tor does not do this) are judged on safety only",
+    "own events that precede the creating reply (Tor does not do this) are judged on safety only, under two readings (taken into account / "
+    "ignored): completing while an attempt announced AFTER the reply is unresolved (await-all), completing without any own UPLOADED, or "
+    "failing while a post-reply attempt has not failed, is a violation under both",
+    "another HS_DESC listener on the same connection (an application's) is registered in the tagged class other-HS_DESC-listener-registered; "
+    "there HS_DESC legitimately stays subscribed and only the wait's own listener must be gone",
     "two readings of 'every attempted upload failed' / 'all resolved' (first prefix vs. end of history) are both accepted: "
     "safety asks for SOME prefix up to the firing point, liveness only when the condition holds at the final prefix",
     "progress callback values are recorded and counted (monotonicity, final 100) but not judged: the statement does not mention them",
@@ -185,8 +189,11 @@ def random_case(rnd):
     seq = seq[:pos] + [["R"]] + seq[pos:]
     names = list(range(20))
     rnd.shuffle(names)
-    return {"kind": rnd.choice(KINDS), "await_all": rnd.random() < 0.5, "stimuli": seq,
-            "dirnames": names[:12]}
+    c = {"kind": rnd.choice(KINDS), "await_all": rnd.random() < 0.5, "stimuli": seq,
+         "dirnames": names[:12]}
+    if rnd.random() < 0.25:
+        c["app_listener"] = True
+    return c
 
 
 def random_history(rnd, dirs):
@@ -225,6 +232,8 @@ def reference(stimuli, await_all):
     reply_at = None
     own_before_reply = False
     can_ok, can_fail, any_own_ok, any_own_fail = [], [], [], []
+    len_ok, len_fail = [], []
+    att_post = set()              # own attempts announced AFTER the creating reply
     own_seen = 0
     for i, s in enumerate(stimuli):
         if s[0] == "R":
@@ -237,6 +246,8 @@ def reference(stimuli, await_all):
             a, d = s[1], s[2]
             if a == "U":
                 att.add(d)
+                if replied:
+                    att_post.add(d)
             elif a == "S":
                 ok.add(d)
             else:
@@ -249,7 +260,17 @@ def reference(stimuli, await_all):
         can_fail.append(bool(att) and att <= failed and not ok)
         any_own_ok.append(bool(ok))
         any_own_fail.append(bool(failed))
+        # own events BEFORE the creating reply (Tor does not send them) may be taken into account by a
+        # correct implementation (reading A = can_ok/can_fail above) or ignored (reading B: only the
+        # attempts announced after the reply count); what no reading allows is completing while an attempt
+        # announced after the reply is unresolved, or failing while one of those has not failed
+        if await_all:
+            len_ok.append(c_ok or (bool(ok) and att_post <= (ok | failed)))
+        else:
+            len_ok.append(bool(ok))
+        len_fail.append(can_fail[-1] or (bool(att_post) and att_post <= failed))
     return {"can_ok": can_ok, "can_fail": can_fail, "any_own_ok": any_own_ok, "any_own_fail": any_own_fail,
+            "lenient_ok": len_ok, "lenient_fail": len_fail,
             "reply_at": reply_at,
             "own_before_reply": own_before_reply, "own_events": own_seen}
 
@@ -263,6 +284,24 @@ def known_trigger(stimuli):
         elif s[0] == "f" and s[1] == "S" and s[2] in att:
             return True
     return False
+
+
+def early_results(stimuli, p):
+    """which results (delivered after the reply, up to stimulus p) belong to directories whose own UPLOAD
+    preceded the creating reply: none / FAILED / UPLOADED / FAILED,UPLOADED"""
+    early, out, replied = set(), set(), False
+    for i, s in enumerate(stimuli):
+        if p is not None and i > p:
+            break
+        if s[0] == "R":
+            replied = True
+        elif s[0] == "o":
+            if s[1] == "U":
+                if not replied:
+                    early.add(s[2])
+            elif replied and s[2] in early:
+                out.add(ACT[s[1]])
+    return ",".join(sorted(out)) or "none"
 
 
 def describe(stimuli, p):
@@ -340,6 +379,11 @@ def execute(case):
     if not cfg.post_bootstrap.called:
         r.harness = "config bootstrap stalled"
         return r
+    if case.get("app_listener"):
+        # an application's own HS_DESC listener on the same connection: HS_DESC stays subscribed, and
+        # removing the wait's listener needs no SETEVENTS round-trip
+        proto.add_event_listener("HS_DESC", lambda text: None)
+        link.pump()
     orig_add = proto.add_event_listener
 
     def add(evt, cb):
@@ -445,7 +489,7 @@ _PROJ = {}
 def projected(case):
     """the same case without the foreign service's events (cached)"""
     st = [s for s in case["stimuli"] if s[0] != "f"]
-    key = (case["kind"], case["await_all"], signature(st), tuple(case.get("dirnames") or ()))
+    key = (case["kind"], case["await_all"], signature(st), tuple(case.get("dirnames") or ()), bool(case.get("app_listener")))
     res = _PROJ.get(key)
     if res is None:
         c2 = dict(case)
@@ -466,6 +510,10 @@ def run_case(case, rec):
 
     def V(clause, what, detail):
         bad.append(clause)
+        if not special and reference(stimuli, await_all)["own_before_reply"] and not what.startswith("kind="):
+            what += "+own-event-before-creating-reply+early-dir-results=" + early_results(stimuli, run.fired_at)
+        if case.get("app_listener"):
+            what += "+other-HS_DESC-listener-registered"
         rec.violation(clause, what if special else input_class(case, what), detail, case)
 
     if run.harness:
@@ -496,8 +544,8 @@ def run_case(case, rec):
             rec.count("outcomes_compared")
             # own events before the creating reply may or may not be taken into account by a correct
             # implementation (Tor does not send them): there only the weakest form is demanded
-            just_ok = ref["any_own_ok"] if lenient else ref["can_ok"]
-            just_fail = ref["any_own_fail"] if lenient else ref["can_fail"]
+            just_ok = ref["lenient_ok"] if lenient else ref["can_ok"]
+            just_fail = ref["lenient_fail"] if lenient else ref["can_fail"]
             if run.ok:
                 if not any(just_ok[:p + 1]):
                     if not any(ref["any_own_ok"][:p + 1]):
@@ -558,6 +606,8 @@ def run_case(case, rec):
         if run.left:
             V("listener-remains-after-%s" % ("success" if run.ok else "failure"), cause,
               dict(detail, listeners_left=len(run.left)))
+        elif case.get("app_listener"):
+            pass            # HS_DESC legitimately stays subscribed for the application's listener
         elif run.hs_subscribed or (run.last_setevents is not None and "HS_DESC" in run.last_setevents):
             V("setevents-not-updated-after-%s" % ("success" if run.ok else "failure"), cause,
               dict(detail, last_setevents=run.last_setevents))
@@ -624,6 +674,12 @@ def shard_cases(spec):
             for aw in (False, True):
                 for kind in spec.get("kinds", ("eph3", "fs3")):
                     yield {"kind": kind, "await_all": aw, "stimuli": st}
+    elif mode == "applistener":
+        # the same own schedules with another HS_DESC listener registered on the connection
+        for st in own_cases(spec["maxn"]):
+            for aw in (False, True):
+                for kind in spec.get("kinds", KINDS):
+                    yield {"kind": kind, "await_all": aw, "stimuli": st, "app_listener": True}
     elif mode == "special":
         for c in special_cases():
             yield c
@@ -698,8 +754,10 @@ def plan(tier, seed):
                           "part": i, "parts": 2, "sample_every": 300,
                           "name": "sample of own 2 dirs x foreign 2 dirs interleavings"})
         specs.append({"mode": "special", "name": "rejected creating command / discarded key of a basic-auth service / await_all_uploads=None"})
-        for i in range(3):
-            specs.append({"mode": "random", "n": 550})
+        specs.append({"mode": "applistener", "maxn": 2, "kinds": ["fs3", "fs2", "eph3", "auth-key"],
+                      "name": "own orderings over 1-2 directories x reply position x mode with another HS_DESC listener registered"})
+        for i in range(2):
+            specs.append({"mode": "random", "n": 700})
     else:
         for i in range(4):
             specs.append({"mode": "own", "maxn": 3, "part": i, "parts": 4,
@@ -719,6 +777,9 @@ def plan(tier, seed):
                           "part": i, "parts": 8, "timeout_s": 3000,
                           "name": "own 3 dirs x foreign 1 dir x every interleaving x mode"})
         specs.append({"mode": "special", "name": "rejected creating command / discarded key of a basic-auth service / await_all_uploads=None"})
+        for i in range(2):
+            specs.append({"mode": "applistener", "maxn": 3, "part": i, "parts": 2,
+                          "name": "own orderings over 1-3 directories x reply position x mode x 6 kinds with another HS_DESC listener registered"})
         for i in range(12):
             specs.append({"mode": "random", "n": 5000, "timeout_s": 3000})
     return specs
